@@ -5,7 +5,7 @@
    instructions_minimal), Ms/DecodeModel.v (parse = decode.rs `decode`; decode_max =
    decode_with_validation_params(.., MAX)), Ms/CodecExt.v (script_size, pk_cost, hfv, gv),
    Ms/CodecSpec.v (ms_wf = the invariants of the Rust types; mtoks = expected tokens). *)
-From Verif Require Import DecodeModel CodecSpec SerProofs LexProofs EncProofs DecodeProofs DecodeRefute.
+From Verif Require Import DecodeModel CodecSpec SerProofs LexProofs EncProofs DecodeProofs DecodeEnc DecodeRefute.
 Local Open Scope N_scope.
 
 (* [T1] ser_parse: the byte-level parser inverts the serialiser on well-formed structured
@@ -62,6 +62,34 @@ Theorem C04_lex_never_out_of_fuel : forall b, lex b <> LexErr LeFuel.
 Proof. exact lex_never_fuel. Qed.
 Print Assumptions C04_lex_never_out_of_fuel.
 
+(* [T2] decode_enc — FULL statement (not proved in this generality; kept visible):
+     forall e m t, wf / keys decodable / type_of m = ROk t with base B, V or K / the size and depth limits
+       of the context hold for the decoder's normal form of m ->
+     exists m', decode_max e (encode (d_ke e) m) = OOk m' /\ enc (d_ke e) m' = enc (d_ke e) m /\ type_of m' = ROk t.
+   (AST identity is not claimed: c:and_v(v:X,pk_k) and and_v(v:X,c:pk_k) share a script.)
+   PROVED PART: for every miniscript already in DECODER NORMAL FORM (dnf KChain: and_v
+   left-nested and hoisted out of c:/v:/n:/and_b/or_b/or_d/or_c/andor/thresh first operands,
+   pk_h as expr_raw_pkh, sortedmulti as multi of the sorted keys — DecodeEnc.v) the decoder
+   returns EXACTLY that miniscript (AST identity), for all nestings, all contexts.  [dec_ok] =
+   from_ast succeeds at every inner node + the leaf range checks + decodable keys.
+   MISSING: (i) the normalisation nf with enc (nf m) = enc m, (ii) type_of (nf m) = type_of m
+   (finite sweeps over the rule tables), both checked per run instead (oracle: identical bytes and
+   identical type on every generated miniscript).  The depth-402 finding shows the limits hypothesis
+   on the normal form cannot be dropped. *)
+Theorem C04_decode_enc_partial : forall e m,
+  ksort_ok (d_ke e) -> ms_wf (d_ctx e) (d_ke e) m ->
+  dnf KChain m = true -> dec_ok e m ->
+  gv (d_ctx e) (d_ke e) m = None -> (exists t, type_of m = ROk t) ->
+  decode_max e (encode (d_ke e) m) = OOk m.
+Proof. exact decode_dnf. Qed.
+Print Assumptions C04_decode_enc_partial.
+
+(* the parser alone: the token list of a normal-form miniscript parses back to it, nothing left over *)
+Theorem C04_parse_dnf : forall e m, dnf KChain m = true -> dec_ok e m ->
+  parse e (mtoks (d_ke e) m) = OOk (m, []).
+Proof. exact parse_dnf. Qed.
+Print Assumptions C04_parse_dnf.
+
 (* decode_canonical — FULL statement, FALSE on the present tree:
      forall e b m, decode_max e b = OOk m -> encode (d_ke e) m = b.
    Refuted by the model (witness: and_v(v:multi_a(1,A,B),pk(A)) with 9d replaced by 9c 69);
@@ -77,3 +105,6 @@ Print Assumptions C04_decode_canonical_refuted.
 (* non-vacuity: the hypotheses of the theorems above are satisfiable (the witness is well formed) *)
 Example C04_hypotheses_satisfiable : ms_wf Tap wit_ke wit_ms /\ ksort_ok wit_ke.
 Proof. exact wit_wf. Qed.
+Example C04_decode_enc_hypotheses_satisfiable :
+  dnf KChain wit_ms = true /\ dec_ok wit_env wit_ms /\ gv Tap wit_ke wit_ms = None.
+Proof. exact wit_dnf. Qed.
